@@ -532,6 +532,7 @@ def panic_sites(B, R=None):
     sites = []
     live = B.live_blocks()
     for bb in sorted(live):
+        B._cur_at = (bb, None)         # operands below are read at the end of this block
         blk = B.blocks[bb]
         t = blk['t']
         if t['k'] == 'assert':
@@ -613,6 +614,7 @@ def panic_sites(B, R=None):
                 sites.append({'kind': 'partial', 'bb': bb, 'desc': '%s(%s)' % (n.rsplit('::', 1)[1], ','.join(describe(B, canon(B, a)) for a in t['args'][:2])),
                               'need': ('partial', n, t)})
                 break
+    B._cur_at = None
     return sites
 
 
@@ -694,6 +696,15 @@ def _mem_len(B, o, depth=0):
 
 def discharge(B, R, site):
     """-> (verdict, detail) with verdict in 'ok' | 'bad' | 'undecided'."""
+    prev_at = getattr(B, '_cur_at', None)
+    B._cur_at = (site['bb'], None)
+    try:
+        return _discharge(B, R, site)
+    finally:
+        B._cur_at = prev_at
+
+
+def _discharge(B, R, site):
     bb = site['bb']
     need = site['need']
     k = need[0]
@@ -965,6 +976,9 @@ def check_panics(ctx, B, rule, reviewed=None, kinds=None, key_prefix='PANIC'):
             ctx.undecided(rule, inst, detail, where)
         else:
             ctx.bad(rule, inst, '%s site not discharged: %s' % (site['kind'], detail), where, key='%s:%s' % (key_prefix, inst))
+    # the scan itself is an instance: how many panic-capable constructs a body contains is a matter of style (`data[0] == x` or a slice pattern)
+    if not kinds:
+        ctx.ok(rule, '%s:examined' % B.path, 'body examined: %d panic-capable site(s), %d block(s)' % (n, len(B.blocks)), ctx.where(B))
     return n
 
 
